@@ -102,8 +102,21 @@ InitState(cfg) ==
      gscSeen |-> FALSE, wind |-> [d \in {RootId} |-> 0],
      D0 |-> [d \in {RootId} |-> NewDeme(0, NoDeme, 0)],      \* deme table at the beginning of the step
      stepCalls |-> 0, steps |-> 0,
+     fwd |-> 0, refused |-> 0,                                \* objective invocations / refusals of the budget wrapper
      pendingInit |-> <<RootId>>,                              \* demes constructed, initial evaluations pending
      roundPart |-> {}, roundFrom |-> {}, roundNew |-> {}, rounds |-> 0]
+
+-----------------------------------------------------------------------------
+(* Evaluation accounting.  Every deme counts the evaluations it *requests* *)
+(* (abstract_deme.py:46: its own EvalCountingProblem is the outermost      *)
+(* wrapper); an evaluation-budget wrapper below it (problem.py             *)
+(* EvalCutoffProblem, shared by all levels as in hms.py:62) forwards only  *)
+(* the first `budget` requests to the objective and refuses the rest.      *)
+Budget(st)  == IF "budget" \in DOMAIN st.cfg THEN st.cfg.budget ELSE NoLimit
+Room(st)    == IF Budget(st) = NoLimit THEN 1000000 ELSE IF Budget(st) > st.fwd THEN Budget(st) - st.fwd ELSE 0
+Account(st, d, k) ==
+    LET f == IF k <= Room(st) THEN k ELSE Room(st) IN
+    [st EXCEPT !.D[d].evals = @ + k, !.fwd = @ + f, !.refused = @ + (k - f)]
 
 -----------------------------------------------------------------------------
 (* Silent step: hibernating demes are skipped when their turn comes        *)
@@ -114,7 +127,7 @@ Norm(st) == IF st.pc = "meta" /\ st.cur = NoDeme /\ st.queue # <<>> /\ Asleep(st
 
 (* ---- initial population of a freshly constructed deme ----------------- *)
 EnChildInit(st, c)    == st.pc \in {"init", "loop"} /\ st.pendingInit # <<>> /\ Head(st.pendingInit) = c
-DoChildInit(st, c, k) == [st EXCEPT !.D[c].evals = @ + k, !.pendingInit = Tail(@),
+DoChildInit(st, c, k) == [Account(st, c, k) EXCEPT !.pendingInit = Tail(@),
                                     !.pc = IF st.pc = "init" /\ Len(st.pendingInit) = 1 THEN "loop" ELSE @]
 
 (* ---- run(): consult at the loop head, begin the step ------------------- *)
@@ -138,9 +151,9 @@ EnIter(st, d) == /\ st.pc = "meta" /\ st.cur = d /\ st.await = "-"
 DoIter(st, d, k) ==
     IF Eng(st, d) \in ShotEngines
     THEN \* the sample is appended to the history at once (lhs_deme.py:27), then the conditions are consulted
-         [st EXCEPT !.D[d].evals = @ + k, !.D[d].me = @ + 1, !.D[d].gens = Append(@, 1),
+         [Account(st, d, k) EXCEPT !.D[d].me = @ + 1, !.D[d].gens = Append(@, 1),
                     !.gen = @ + 1, !.await = "gsc", !.wind = Wound(st, d), !.stepCalls = @ + k]
-    ELSE [st EXCEPT !.D[d].evals = @ + k, !.gen = @ + 1, !.await = "gsc", !.wind = Wound(st, d),
+    ELSE [Account(st, d, k) EXCEPT !.gen = @ + 1, !.await = "gsc", !.wind = Wound(st, d),
                     !.stepCalls = @ + k]
 
 (* ---- the consult after the iteration; selfStop: CMA-ES' own criterion --- *)
@@ -165,7 +178,7 @@ DoLsc(st, d, v, selfStop) ==
 (* ---- local deme: one complete search, no consult ----------------------- *)
 EnLocalRun(st, d) == EnBegin(st, d) /\ Eng(st, d) = "LOCAL"
 DoLocalRun(st, d, k) ==
-    Norm([st EXCEPT !.queue = Tail(@), !.D[d].evals = @ + k, !.D[d].me = @ + 1, !.D[d].gens = Append(@, 1),
+    Norm([Account(st, d, k) EXCEPT !.queue = Tail(@), !.D[d].me = @ + 1, !.D[d].gens = Append(@, 1),
                     !.D[d].active = FALSE, !.D[d].why = "self", !.wind = Wound(st, d), !.stepCalls = @ + k])
 
 (* ---- run_step(): consult after the metaepoch ---------------------------- *)
@@ -259,6 +272,15 @@ C08_RoundWithinFreeSlots(st, st2) ==
         Cardinality({d \in Ids(st2) \ Ids(st) : st2.D[d].lvl = l}) <=
             IF st.cfg.limit - Cardinality(ActiveOn(st, l)) > 0 THEN st.cfg.limit - Cardinality(ActiveOn(st, l)) ELSE 0
 
+\* C03 "an evaluation budget is hard: ... never invoke the underlying objective more than N times"
+C03_BudgetHard(st) == Budget(st) = NoLimit \/ st.fwd <= Budget(st)
+\* C03 "the tree's total equals the sum over its demes and equals the number of times the objective was actually
+\*      invoked ... as long as no evaluation-cutoff wrapper has started refusing evaluations"
+C03_TotalEqualsCalls(st) == st.refused = 0 => TotalEvals(st) = st.fwd
+\* every request is either forwarded or refused; the budget wrapper refuses only when it is exhausted
+C03_RequestsSplit(st) == /\ TotalEvals(st) = st.fwd + st.refused
+                         /\ st.refused > 0 => Budget(st) # NoLimit /\ st.fwd = Budget(st)
+
 \* C05 "from the moment the condition is first observed true ... each still-active deme performs at most
 \*      one further engine iteration (one generation, or one complete local search)"
 C05_WindDownAtMostOne(st) == \A d \in DOMAIN st.wind : st.wind[d] <= 1
@@ -323,5 +345,22 @@ AllAwakeRanWithoutChange(st) ==
 C18_NoIdleMetaepoch(st)  == ~IdleMetaepoch(st)
 \* the same, except for the idle metaepochs of known finding KF-C18-stall (every active deme was asleep)
 C18_NoIdleUnlessAllAsleep(st) == IdleMetaepoch(st) => AllActiveWereAsleep(st)
+
+-----------------------------------------------------------------------------
+(* Beyond the listed properties: the deme's own clock and the adaptive     *)
+(* mutation schedule (abstract_deme.py:110-127, ea_deme.py:60-64).         *)
+Clock(st, d)        == st.D[d].startedAt + st.D[d].me            \* current_iteration
+KidStarts(st, d)    == {st.D[c].startedAt : c \in Kids(st, d)}
+SinceSproutRaw(st, d) == IF Kids(st, d) = {} THEN 0 ELSE Clock(st, d) - Max(KidStarts(st, d))
+SinceSprout(st, d)  == IF SinceSproutRaw(st, d) < 0 THEN 0 ELSE SinceSproutRaw(st, d)   \* clamped (fix 7ee42ca)
+AtBoundary(st)      == st.pc = "loop" /\ st.pendingInit = <<>>
+\* no deme's clock runs ahead of the tree's metaepoch counter
+G_ClockNotAhead(st) == \A d \in Ids(st) : Clock(st, d) <= st.mc
+\* without hibernation an active deme's clock equals the tree's metaepoch counter at every boundary ...
+G_ClockInSync(st)   == AtBoundary(st) /\ ~HibOn(st) => \A d \in Ids(st) : st.D[d].active => Clock(st, d) = st.mc
+\* ... and therefore the raw distance to the last sprout is never negative (it can be with hibernation: a deme
+\* that slept lags behind the start metaepochs of its later children - the defect repaired by 7ee42ca)
+G_SinceSproutRawNonNeg(st) == ~HibOn(st) => \A d \in Ids(st) : st.D[d].active => SinceSproutRaw(st, d) >= 0
+G_SinceSproutBounded(st)   == \A d \in Ids(st) : SinceSprout(st, d) >= 0 /\ SinceSprout(st, d) <= st.D[d].me
 
 =============================================================================
